@@ -439,6 +439,12 @@ def rule_wnaf_exp(fx, rep):
                         return Int(int(a.sign >= 0), 1)
                     if op == 'Le':
                         return Int(int(a.sign <= 0), 1)
+                if isinstance(a, HalfIdx) and b == ('table-len',) and op in ('Lt', 'Le'):
+                    # the digit belongs to the window the table was built for (the contract under which plain
+                    # indexing does not panic either)
+                    return Int(1, 1)
+                if a == ('table-len',) and isinstance(b, HalfIdx) and op in ('Gt', 'Ge'):
+                    return Int(1, 1)
                 if isinstance(a, Digit) and b is None and op == 'Neg':
                     return Digit(-a.sign, a.m)
                 if isinstance(a, Digit) and isinstance(b, Int) and b.v == 2 and op == 'Div' and a.sign > 0:
@@ -476,6 +482,14 @@ def rule_wnaf_exp(fx, rep):
                         if m_ in ('abs', 'wrapping_abs', 'unsigned_abs'):
                             fr.storev(t['dest'], Digit(abs(a_.sign), a_.m))
                             return True
+                if nm == 'len' and len(args) == 1:
+                    v = fr.deref_operand(args[0])
+                    for _ in range(3):
+                        if isinstance(v, exp.Ref):
+                            v = fr._project(fr.store.get(v.root, TOP), v.proj)
+                    if isinstance(v, TableContract):
+                        fr.storev(t['dest'], ('table-len',))
+                        return True
                 if nm == 'rev' and c.get('trait') == 'std::iter::Iterator':
                     v = fr.operand(args[0])
                     if isinstance(v, exp.SliceIt):
@@ -507,7 +521,9 @@ def rule_wnaf_exp(fx, rep):
                         fr.storev(t['dest'], hv)
                         return True
                 return transfer(I, fr, t, c, pth)
-            I = exp.Interp(fx, 'add', extra_transfer=tr)
+            import inline as INL
+            I = exp.Interp(fx, 'add', extra_transfer=tr, inline=lambda q_: INL.is_private_helper(fx, q_) and q_ != p)
+            I.fork_inlined = True
             I.binop_hook = hook
             I.propagate_hooks = True
             # table lookups with HalfIdx: done through Frame projection -> patch: supply the table as a dict-like Agg
